@@ -1,6 +1,8 @@
 import Bermuda.Model.Json
 import Bermuda.Model.Resample
 import Bermuda.Model.ResampleExt
+import Bermuda.Model.ResampleME
+import Bermuda.Model.ResampleATA
 import Bermuda.Spec.C17
 open Lean Bermuda Bermuda.Resample
 
@@ -30,6 +32,36 @@ def repParamFromJson (j : Json) : Except String RepParam := do
     | .error _ => pure []
   return { F := F, qs := fun f => (assoc? qs f).getD [] }
 
+def idxTableFromJson (j : Json) : Except String IdxTable := do
+  (← j.getArr?).toList.mapM fun e => do
+    let a ← e.getArr?
+    if a.size != 2 then throw "I: want [lag, table]"
+    return (← ratFromJson a[0]!, ← pairsFromJson (fun v => do (← v.getArr?).toList.mapM (·.getNat?)) a[1]!)
+
+/-- one replicate of one slice: `{"I": index draws}` (age-to-age), `{"qs": sorted quantiles}` (maximum entropy);
+the older `{"F": factor table}` is still understood -/
+def drawsFromJson (j : Json) : Except String (Option Factors × Draws) := do
+  let F ← match j.getObjVal? "F" with
+    | .ok v => pure (some (← factorsFromJson v))
+    | .error _ => pure none
+  let I ← match j.getObjVal? "I" with
+    | .ok v => idxTableFromJson v
+    | .error _ => pure []
+  let qs ← match j.getObjVal? "qs" with
+    | .ok v => pairsFromJson ratsFromJson v
+    | .error _ => pure []
+  return (F, { I := I, qs := fun f => (assoc? qs f).getD [] })
+
+def limitsFromJson (j : Json) : Except String (Option (Rat × Rat)) := do
+  match j.getObjVal? "L" with
+  | .ok v =>
+    if v.isNull then return none
+    else
+      let a ← v.getArr?
+      if a.size != 2 then throw "L: want [lo, hi]"
+      return some (← ratFromJson a[0]!, ← ratFromJson a[1]!)
+  | .error _ => return none
+
 def optFields (j : Json) : Except String (Option (List String)) := do
   match j.getObjVal? "field" with
   | .ok v => if v.isNull then return none else return some (← (← v.getArr?).toList.mapM (·.getStr?))
@@ -47,7 +79,9 @@ def handle (j : Json) : Except String Json := do
     let spec ← match j.getObjVal? "impl" with
       | .ok v => if v.isNull then pure Json.null else do
           let r ← ratsFromJson v
-          pure <| bools [("order", Spec.C17.rankOrderOk xs r), ("fixed", Spec.C17.rankFixed xs r),
+          -- `order` reads lists inside a double loop: small series only (for longer ones it follows from `fixed`
+          -- by Properties.C17.spec_rank)
+          pure <| bools [("order", xs.length > 300 || Spec.C17.rankOrderOk xs r), ("fixed", Spec.C17.rankFixed xs r),
                          ("perm", Spec.C17.sameMultiset qs r)]
       | .error _ => pure Json.null
     return Json.mkObj [("model", ratsToJson model), ("spec", spec)]
@@ -56,21 +90,85 @@ def handle (j : Json) : Except String Json := do
     let xs ← (← (← j.getObjVal? "xs").getArr?).toList.mapM Val.fromJson
     let qs ← ratsFromJson (← j.getObjVal? "qs")
     return Json.mkObj [("model", exceptToJson (fun l => Json.arr (l.map Val.toJson).toArray) (meEnsembleRaw xs qs))]
+  | "me" =>
+    -- {"op":"me","xs":[val..],"U":[rat..],"L":null|[lo,hi],"tol":rat,"impl":[rat..]|null}
+    let xs ← (← (← j.getObjVal? "xs").getArr?).toList.mapM Val.fromJson
+    let U ← ratsFromJson (← j.getObjVal? "U")
+    let L ← limitsFromJson j
+    let tol ← match j.getObjVal? "tol" with
+      | .ok v => ratFromJson v
+      | .error _ => pure 0
+    let model := maxEntropy xs U L
+    let nums? := match mapMExcept numOf xs with | .ok n => some n | .error _ => none
+    let (info, spec) ← match nums? with
+      | none => pure (Json.null, Json.null)
+      | some nums =>
+        let lim := meLimits nums L
+        let info := Json.mkObj [("lim", ratsToJson [lim.1, lim.2]),
+          ("bind", Json.bool (limitsBind (sortQ nums) lim.1 lim.2)),
+          ("envelope", ratsToJson [meLower (sortQ nums) lim.1 lim.2, meUpper (sortQ nums) lim.1 lim.2])]
+        let spec ← match j.getObjVal? "impl" with
+          | .ok v => if v.isNull then pure Json.null else do
+              let r ← ratsFromJson v
+              -- the three bound clauses presuppose draws in [0, 1) (as `rng.uniform` delivers; the code's own
+              -- guard `0 > u > 1` is dead, a draw below 0 is extrapolated — `value`/`perm` still apply)
+              let unit := U.all fun u => decide (0 ≤ u) && decide (u < 1)
+              pure <| bools [("intervals", !unit || Spec.C17.meIntervalsOk nums L tol r),
+                             ("envelope", !unit || Spec.C17.meEnvelopeOk nums L tol r),
+                             ("limits", !unit || Spec.C17.meLimitsOk nums L tol r),
+                             ("perm", Spec.C17.mePermOk nums U L tol r),
+                             ("value", Spec.C17.meValueOk nums U L tol r),
+                             -- quadratic-with-list-access clause: small series only (implied by `value` + theorem)
+                             ("order", nums.length > 300 || Spec.C17.rankOrderOk nums r)]
+          | .error _ => pure Json.null
+        pure (info, spec)
+    return Json.mkObj [("model", exceptToJson (fun l => Json.arr (l.map Val.toJson).toArray) model),
+                       ("info", info), ("spec", spec)]
+  | "moments" =>
+    -- {"op":"moments","d":[rat..],"impl":{"mean":rat,"var":rat,"n":nat,"tolM":rat,"tolV":rat}|null}
+    let d ← ratsFromJson (← j.getObjVal? "d")
+    let (mu, s2, n) := sampleMoments d
+    let g := gammaParams mu s2
+    let spec ← match j.getObjVal? "impl" with
+      | .ok v => if v.isNull then pure Json.null else do
+          let m ← ratFromJson (← v.getObjVal? "mean")
+          let vr ← ratFromJson (← v.getObjVal? "var")
+          let k ← (← v.getObjVal? "n").getNat?
+          let tm ← ratFromJson (← v.getObjVal? "tolM")
+          let tv ← ratFromJson (← v.getObjVal? "tolV")
+          pure <| bools [("moments", Spec.C17.momentsOk d m vr k tm tv)]
+      | .error _ => pure Json.null
+    return Json.mkObj [("model", Json.mkObj [("mean", ratToJson mu), ("var", ratToJson s2), ("n", Json.num n),
+                                              ("gamma", ratsToJson [g.1, g.2])]), ("spec", spec)]
   | "bootstrap" =>
     let t ← cellsFromJson (← j.getObjVal? "t")
     let n ← jInt? (← j.getObjVal? "n")
     let field ← optFields j
     let P ← (← (← j.getObjVal? "P").getArr?).toList.mapM fun s => do
-      (← s.getArr?).toList.mapM repParamFromJson
-    let Pf : Nat → Nat → RepParam := fun k i => (P.getD k []).getD i {}
-    let model := bootstrap t n field Pf
+      (← s.getArr?).toList.mapM drawsFromJson
+    let usesF := P.any fun s => s.any fun d => d.1.isSome
+    let Df : Nat → Nat → Draws := fun k i => ((P.getD k []).getD i (none, {})).2
+    let Pf : Nat → Nat → RepParam := fun k i =>
+      let d := (P.getD k []).getD i (none, {})
+      { F := d.1.getD [], qs := d.2.qs }
+    let model := if usesF then bootstrap t n field Pf else bootstrapD t n field Df
+    let identity := match j.getObjVal? "identity" with
+      | .ok (.bool b) => b
+      | _ => false
+    let slices := (Triangle.slices t).map (·.2)
     let spec ← match j.getObjVal? "impl" with
       | .ok v => if v.isNull then pure Json.null else do
           let reps ← (← v.getArr?).toList.mapM cellsFromJson
-          pure <| bools [
+          let perSlice (g : List Cell → List Cell → Nat → List String → IdxTable → Bool) : Bool :=
+            reps.zipIdx.all fun (rep, i) => slices.zipIdx.all fun (s, k) =>
+              !useAtas s || g s rep i (field.getD (fieldsOf s)) (Df k i).I
+          pure <| bools ([
             ("structure", Spec.C17.bootstrapStructureOk t n.toNat reps),
             ("first", reps.zipIdx.all fun (rep, i) => Spec.C17.firstCellsUnchanged t rep i),
-            ("membership", reps.zipIdx.all fun (rep, i) => Spec.C17.ataMembershipOk t rep i field)]
+            ("membership", reps.zipIdx.all fun (rep, i) => Spec.C17.ataMembershipOk t rep i field)] ++
+            (if usesF then [] else [("chain", perSlice Spec.C17.chainOkSlice)]) ++
+            (if identity then [("reproduces", perSlice fun s rep i fs _ => Spec.C17.reproducesSlice s rep i fs)]
+             else []))
       | .error _ => pure Json.null
     return Json.mkObj [("model", exceptToJson (fun l => Json.arr (l.map cellsToJson).toArray) model),
                        ("spec", spec)]
